@@ -105,4 +105,16 @@ Proof.
   end; try discriminate.
 Qed.
 
+
+(** Channels the repaired code never closes stay open in every reachable
+    state: a send on the router's action channel, on the meta peer or its
+    INVOCATION queue can never be a send on a closed channel. *)
+Theorem never_closed_stays_open (p : params) c s :
+  never_closed c = true -> sreach (init p) s -> c_closed (chans s c) = false.
+Proof.
+  intros Hn Hr.
+  apply (never_closed_invariant L ch vr lk wgn msg ch_eqb vr_eqb lk_eqb wgn_eqb code ch_eqb_eq (init p) c); auto.
+  intros l Hin. eapply code_never_closes; eauto.
+Qed.
+
 End Proofs.
